@@ -19,12 +19,13 @@ Fixpoint Qapp (m : nat) (V : @Mx R) (cnt : nat) (x : nat -> R) : nat -> R :=
 Definition dot (m : nat) (x y : nat -> R) : R := rsum m (fun i => x i * y i).
 
 (* ---------- small tools ---------- *)
-Ltac bdestr :=
-  repeat match goal with
+Ltac bstep :=
+  match goal with
   | |- context [Nat.eqb ?a ?b] => destruct (Nat.eqb_spec a b)
   | |- context [Nat.leb ?a ?b] => destruct (Nat.leb_spec a b)
   | |- context [Nat.ltb ?a ?b] => destruct (Nat.ltb_spec a b)
-  end; cbn [andb orb negb]; subst; try lia; try reflexivity.
+  end.
+Ltac bdestr := repeat (bstep; cbn [andb orb negb]; try lia); subst; try lia; try reflexivity.
 
 Lemma rsum_first n f : rsum (S n) f = f 0%nat + rsum n (fun t => f (S t)).
 Proof.
@@ -285,4 +286,360 @@ Proof.
     + intros i. unfold Hk. rewrite Hnz. bdestr; try (apply HA0; lia).
       rewrite updv_same, En, HA0 by lia. lra.
     + left. split; [exact HA0|]. rewrite updv_same, En. lra.
+Qed.
+
+(* ---------- (2), (3): the invariant of the outer loop ---------- *)
+Lemma qr_steps_S m n c (A : @Mx R) :
+  qr_steps ROps m n (S c) A = qr_step ROps m n c (qr_steps ROps m n c A).
+Proof. reflexivity. Qed.
+
+Lemma Qtapp_ext m V cnt x y :
+  (forall i, (i < m)%nat -> x i = y i) -> forall i, x i = y i -> Qtapp m V cnt x i = Qtapp m V cnt y i.
+Proof.
+  intros Hx. induction cnt as [|c IH]; intros i Hi; [exact Hi|].
+  cbn [Qtapp]. apply Hk_ext.
+  - intros r Hr. apply IH. apply Hx. lia.
+  - apply IH. exact Hi.
+Qed.
+Lemma Qtapp_ext_V m V V' cnt x : (cnt <= m)%nat ->
+  (forall k i, (k < cnt)%nat -> (k <= i < m)%nat -> V i k = V' i k) ->
+  forall i, Qtapp m V cnt x i = Qtapp m V' cnt x i.
+Proof.
+  induction cnt as [|c IH]; intros Hc HV i; [reflexivity|].
+  cbn [Qtapp]. rewrite (Hk_ext_V m c V V') by (try lia; intros; apply HV; lia).
+  apply Hk_ext; intros; apply IH; try lia; intros; apply HV; lia.
+Qed.
+
+Lemma refl_fact_ext m k V V' tau tau' : (k < m)%nat ->
+  (forall i, (k <= i < m)%nat -> V i k = V' i k) -> tau k = tau' k ->
+  refl_fact m k V tau -> refl_fact m k V' tau'.
+Proof.
+  intros Hkm HV Ht [[H1 H2]|[H1 [H2 H3]]]; [left|right].
+  - split; [intros i Hi; rewrite <- HV by lia; apply H1; lia|congruence].
+  - rewrite <- HV, <- Ht by lia. split; [exact H1|]. split; [|exact H3].
+    rewrite <- H2. apply rsum_ext. intros t Ht'. rewrite HV by lia. reflexivity.
+Qed.
+
+Definition qr_inv (m n : nat) (A : @Mx R) (c : nat) (st : @Mx R * (nat -> R)) : Prop :=
+  let '(B, rd) := st in
+  (forall i j, (i < m)%nat -> (j < n)%nat ->
+     Qtapp m B c (fun r => A r j) i =
+     if (j <? c) then (if (i <=? j) then qr_R ROps B rd i j else 0) else B i j) /\
+  (forall k, (k < c)%nat -> refl_fact m k B rd).
+
+Lemma qr_steps_inv m n A c : (n <= m)%nat -> (c <= n)%nat -> qr_inv m n A c (qr_steps ROps m n c A).
+Proof.
+  intros Hnm. induction c as [|c IH]; intros Hc.
+  - unfold qr_steps. cbn [for_up qr_inv Qtapp]. split; [intros; reflexivity|intros; lia].
+  - rewrite qr_steps_S. specialize (IH ltac:(lia)).
+    destruct (qr_steps ROps m n c A) as [B rd].
+    destruct (qr_step ROps m n c (B, rd)) as [B' rd'] eqn:E1.
+    destruct IH as [IH1 IH2].
+    destruct (qr_step_spec m n c B rd ltac:(lia) ltac:(lia) B' rd' E1) as (S1 & S2 & S3 & S4 & S5 & S6).
+    split.
+    + intros i j Hi Hj. cbn [Qtapp].
+      assert (HQ : forall r, (r < m)%nat -> Qtapp m B' c (fun r => A r j) r =
+                 if (j <? c) then (if (r <=? j) then qr_R ROps B rd r j else 0) else B r j).
+      { intros r Hr. rewrite <- IH1 by assumption. apply Qtapp_ext_V; [lia|].
+        intros k i0 Hk0 Hi0. apply S1. lia. }
+      destruct (lt_eq_lt_dec j c) as [[Hjc|Hjc]|Hjc].
+      * rewrite (Hk_ext m c B' _ (fun r => if (r <=? j) then qr_R ROps B rd r j else 0)).
+        2:{ intros r Hr. rewrite HQ by lia. bdestr. }
+        2:{ rewrite HQ by lia. bdestr. }
+        rewrite Hk_zero_tail by (intros r Hr; bdestr).
+        unfold qr_R. bdestr.
+        -- apply eq_sym, S3. lia.
+        -- apply eq_sym, S1. lia.
+      * subst j.
+        rewrite (Hk_ext m c B' _ (fun r => B r c)).
+        2:{ intros r Hr. rewrite HQ by lia. bdestr. }
+        2:{ rewrite HQ by lia. bdestr. }
+        rewrite S5. unfold qr_R. bdestr. apply eq_sym, S2. lia.
+      * rewrite (Hk_ext m c B' _ (fun r => B r j)).
+        2:{ intros r Hr. rewrite HQ by lia. bdestr. }
+        2:{ rewrite HQ by lia. bdestr. }
+        rewrite <- S4 by lia. bdestr.
+    + intros k Hk0. destruct (Nat.eq_dec k c) as [->|Hne]; [exact S6|].
+      apply (refl_fact_ext m k B B' rd rd'); [lia| | |apply IH2; lia].
+      * intros i Hi. apply eq_sym, S1. lia.
+      * apply eq_sym, S3. lia.
+Qed.
+
+Lemma qr_reflector_norm m n (A : @Mx R) : (n <= m)%nat ->
+  let '(QR, tau) := qr_mut ROps m n A in
+  forall k, (k < n)%nat ->
+    ((forall i, (k <= i < m)%nat -> QR i k = 0) /\ tau k = 0) \/
+    (1 <= QR k k /\ rsum (m - k) (fun t => QR (k + t)%nat k ^ 2) = 2 * QR k k /\ tau k <> 0).
+Proof.
+  intros Hnm. pose proof (qr_steps_inv m n A n Hnm (le_n n)) as H. unfold qr_mut.
+  destruct (qr_steps ROps m n n A) as [QR tau]. destruct H as [_ H]. exact H.
+Qed.
+
+Lemma qr_triangularize m n (A : @Mx R) : (n <= m)%nat ->
+  let '(QR, tau) := qr_mut ROps m n A in
+  forall i j, (i < m)%nat -> (j < n)%nat ->
+    Qtapp m QR n (fun r => A r j) i = (if (i <=? j)%nat then qr_R ROps QR tau i j else 0).
+Proof.
+  intros Hnm. pose proof (qr_steps_inv m n A n Hnm (le_n n)) as H. unfold qr_mut.
+  destruct (qr_steps ROps m n n A) as [QR tau]. destruct H as [H _].
+  intros i j Hi Hj. rewrite H by assumption. bdestr.
+Qed.
+
+(* ---------- (4) H_k is a linear orthogonal involution ---------- *)
+Definition refl_ok (m k : nat) (V : @Mx R) : Prop :=
+  V k k = 0 \/ rsum (m - k) (fun t => V (k + t)%nat k ^ 2) = 2 * V k k.
+
+Lemma refl_fact_ok m k V tau : (k < m)%nat -> refl_fact m k V tau -> refl_ok m k V.
+Proof. intros Hkm [[H1 _]|[_ [H2 _]]]; [left; apply H1; lia|right; exact H2]. Qed.
+
+Lemma sig_linear m k V a b x y :
+  sig m k V (fun i => a * x i + b * y i) = a * sig m k V x + b * sig m k V y.
+Proof.
+  unfold sig. rewrite <- !rsum_scal, <- rsum_plus. apply rsum_ext. intros t Ht. ring.
+Qed.
+Lemma sig_refl m k V x :
+  sig m k V (refl m k V x) =
+  sig m k V x + (- sig m k V x / V k k) * rsum (m - k) (fun t => V (k + t)%nat k ^ 2).
+Proof.
+  unfold sig at 1.
+  rewrite (rsum_ext _ _ (fun t => V (k + t)%nat k * x (k + t)%nat +
+                                  (- sig m k V x / V k k) * (V (k + t)%nat k ^ 2))).
+  - rewrite rsum_plus, rsum_scal. reflexivity.
+  - intros t Ht. rewrite refl_in by lia. ring.
+Qed.
+
+Lemma Hk_linear m k V a b x y i :
+  Hk m k V (fun i => a * x i + b * y i) i = a * Hk m k V x i + b * Hk m k V y i.
+Proof.
+  unfold Hk. destruct (nez ROps (V k k)); [|reflexivity].
+  destruct (le_lt_dec k i) as [H1|H1]; [destruct (le_lt_dec m i) as [H2|H2]|].
+  - rewrite !refl_out by lia. reflexivity.
+  - rewrite !refl_in by lia. rewrite sig_linear. unfold Rdiv. ring.
+  - rewrite !refl_out by lia. reflexivity.
+Qed.
+
+Lemma Hk_involutive m k V : refl_ok m k V -> forall x i, Hk m k V (Hk m k V x) i = x i.
+Proof.
+  intros H x i. unfold Hk. destruct (nez ROps (V k k)) eqn:E; [|reflexivity].
+  apply nez_R in E. destruct H as [H|H]; [contradiction|].
+  destruct (le_lt_dec k i) as [H1|H1]; [destruct (le_lt_dec m i) as [H2|H2]|].
+  - rewrite !refl_out by lia. reflexivity.
+  - rewrite refl_in by lia. rewrite sig_refl, H. rewrite refl_in by lia. field. exact E.
+  - rewrite !refl_out by lia. reflexivity.
+Qed.
+
+Lemma dot_split m k x y : (k <= m)%nat ->
+  dot m x y = rsum k (fun i => x i * y i) + rsum (m - k) (fun t => x (k + t)%nat * y (k + t)%nat).
+Proof.
+  intros H. unfold dot. rewrite <- (rsum_app k (m - k) (fun i => x i * y i)). f_equal. lia.
+Qed.
+
+Lemma Hk_dot m k V : refl_ok m k V -> forall x y, dot m (Hk m k V x) (Hk m k V y) = dot m x y.
+Proof.
+  intros H x y. unfold Hk. destruct (nez ROps (V k k)) eqn:E; [|reflexivity].
+  apply nez_R in E. destruct H as [H|H]; [contradiction|].
+  destruct (le_lt_dec m k) as [Hmk|Hmk].
+  - unfold dot. apply rsum_ext. intros i Hi. rewrite !refl_out by lia. reflexivity.
+  - rewrite !(dot_split m k) by lia. f_equal.
+    + apply rsum_ext. intros i Hi. rewrite !refl_out by lia. reflexivity.
+    + set (sx := - sig m k V x / V k k). set (sy := - sig m k V y / V k k).
+      rewrite (rsum_ext _ _ (fun t => x (k + t)%nat * y (k + t)%nat +
+                 (sy * (V (k + t)%nat k * x (k + t)%nat) +
+                  (sx * (V (k + t)%nat k * y (k + t)%nat) + (sx * sy) * (V (k + t)%nat k ^ 2))))).
+      2:{ intros t Ht. rewrite !refl_in by lia. fold sx sy. ring. }
+      rewrite !rsum_plus, !rsum_scal. rewrite H.
+      change (rsum (m - k) (fun t => V (k + t)%nat k * x (k + t)%nat)) with (sig m k V x).
+      change (rsum (m - k) (fun t => V (k + t)%nat k * y (k + t)%nat)) with (sig m k V y).
+      unfold sx, sy. field. exact E.
+Qed.
+
+(* ---------- (5) A = Q R with Q the product of the stored reflections ---------- *)
+Lemma Qapp_ext m V cnt : forall x y,
+  (forall i, (i < m)%nat -> x i = y i) -> forall i, x i = y i -> Qapp m V cnt x i = Qapp m V cnt y i.
+Proof.
+  induction cnt as [|c IH]; intros x y Hx i Hi; [exact Hi|].
+  cbn [Qapp]. apply IH.
+  - intros r Hr. apply Hk_ext; [intros; apply Hx; lia|apply Hx; lia].
+  - apply Hk_ext; [intros; apply Hx; lia|exact Hi].
+Qed.
+
+Lemma Qapp_Qtapp m V cnt : (forall k, (k < cnt)%nat -> refl_ok m k V) ->
+  forall x i, Qapp m V cnt (Qtapp m V cnt x) i = x i.
+Proof.
+  induction cnt as [|c IH]; intros Hok x i; [reflexivity|].
+  cbn [Qapp Qtapp].
+  rewrite (Qapp_ext m V c _ (Qtapp m V c x)).
+  - apply IH. intros; apply Hok; lia.
+  - intros r Hr. apply Hk_involutive. apply Hok. lia.
+  - apply Hk_involutive. apply Hok. lia.
+Qed.
+Lemma Qtapp_Qapp m V cnt : (forall k, (k < cnt)%nat -> refl_ok m k V) ->
+  forall x i, Qtapp m V cnt (Qapp m V cnt x) i = x i.
+Proof.
+  induction cnt as [|c IH]; intros Hok x i; [reflexivity|].
+  cbn [Qapp Qtapp].
+  rewrite (Hk_ext m c V _ (Hk m c V x)).
+  - apply Hk_involutive. apply Hok. lia.
+  - intros r Hr. apply IH. intros; apply Hok; lia.
+  - apply IH. intros; apply Hok; lia.
+Qed.
+
+Lemma qr_refl_ok m n (A : @Mx R) : (n <= m)%nat ->
+  forall k, (k < n)%nat -> refl_ok m k (fst (qr_mut ROps m n A)).
+Proof.
+  intros Hnm k Hk0. pose proof (qr_reflector_norm m n A Hnm) as F.
+  destruct (qr_mut ROps m n A) as [QR tau]. cbn [fst].
+  apply (refl_fact_ok m k QR tau); [lia|]. apply F. exact Hk0.
+Qed.
+
+Lemma qr_reconstruct m n (A : @Mx R) : (n <= m)%nat ->
+  let '(QR, tau) := qr_mut ROps m n A in
+  forall i j, (i < m)%nat -> (j < n)%nat ->
+    Qapp m QR n (fun r => if (r <=? j)%nat then qr_R ROps QR tau r j else 0) i = A i j.
+Proof.
+  intros Hnm. pose proof (qr_triangularize m n A Hnm) as T. pose proof (qr_refl_ok m n A Hnm) as F.
+  destruct (qr_mut ROps m n A) as [QR tau]. cbn [fst] in F.
+  intros i j Hi Hj.
+  rewrite (Qapp_ext m QR n _ (Qtapp m QR n (fun r => A r j))).
+  - apply (Qapp_Qtapp m QR n F (fun r => A r j) i).
+  - intros r Hr. symmetry. apply T; assumption.
+  - symmetry. apply T; assumption.
+Qed.
+
+(* ---------- (6) QR::Q ---------- *)
+Lemma qr_Q_inner_spec m n k (QR Q1 : @Mx R) i j :
+  for_up (n - k) k (fun j Q2 => if nez ROps (QR k k) then house_apply ROps m k QR j Q2 else Q2) Q1 i j =
+  if ((k <=? j) && (j <? n))%bool then Hk m k QR (fun r => Q1 r j) i else Q1 i j.
+Proof.
+  pose (P := fun (c : nat) (Q2 : @Mx R) => forall i j,
+     Q2 i j = if ((k <=? j) && (j <? k + c))%bool then Hk m k QR (fun r => Q1 r j) i else Q1 i j).
+  assert (HP : P (n - k)%nat (for_up (n - k) k
+     (fun j Q2 => if nez ROps (QR k k) then house_apply ROps m k QR j Q2 else Q2) Q1)).
+  { apply for_up_inv.
+    - intros i0 j0. bdestr.
+    - intros c Q2 Hc HB i0 j0. unfold Hk in *. destruct (nez ROps (QR k k)) eqn:E.
+      + rewrite house_apply_spec. destruct (Nat.eqb_spec j0 (k + c)) as [->|Hne].
+        * replace ((k <=? k + c) && (k + c <? k + S c))%bool with true by (symmetry; bdestr).
+          apply refl_ext_x; intros; rewrite HB; bdestr.
+        * rewrite HB. bdestr.
+      + rewrite HB. bdestr. }
+  rewrite HP. bdestr.
+Qed.
+
+Lemma Qapp_zero_tail m V cnt x : (forall r, (cnt <= r < m)%nat -> x r = 0) ->
+  forall d i, Qapp m V (cnt + d) x i = Qapp m V cnt x i.
+Proof.
+  intros Hz. induction d as [|d IH]; intros i; [rewrite Nat.add_0_r; reflexivity|].
+  rewrite Nat.add_succ_r. cbn [Qapp]. rewrite <- IH. apply Qapp_ext.
+  - intros r Hr. apply Hk_zero_tail. intros r' Hr'. apply Hz. lia.
+  - apply Hk_zero_tail. intros r' Hr'. apply Hz. lia.
+Qed.
+
+Lemma qr_Q_spec m n (QR : @Mx R) i j : (n <= m)%nat -> (i < m)%nat -> (j < n)%nat ->
+  qr_Q ROps m n QR i j = Qapp m QR n (fun r => if Nat.eqb r j then 1 else 0) i.
+Proof.
+  intros _ _ Hj. unfold qr_Q.
+  pose (P := fun (c : nat) (Q : @Mx R) =>
+    (forall i j, ~ (c <= j < n)%nat -> Q i j = 0) /\
+    (forall i j, (c <= j < n)%nat ->
+       Qapp m QR c (fun r => Q r j) i = Qapp m QR n (fun r => if Nat.eqb r j then 1 else 0) i)).
+  match goal with |- for_down n ?f ?s i j = _ => assert (HP : P 0%nat (for_down n f s)) end.
+  { apply for_down_inv.
+    - split; [intros; reflexivity|intros; lia].
+    - intros c Q Hc [H1 H2]. cbn [o1 ROps]. split.
+      + intros i0 j0 Hj0. rewrite qr_Q_inner_spec.
+        replace ((c <=? j0) && (j0 <? n))%bool with false by (symmetry; bdestr).
+        rewrite upd_other by lia. apply H1. lia.
+      + intros i0 j0 Hj0.
+        assert (HQ' : forall r, for_up (n - c) c
+                  (fun j Q2 => if nez ROps (QR c c) then house_apply ROps m c QR j Q2 else Q2)
+                  (upd Q c c 1) r j0 = Hk m c QR (fun r => upd Q c c 1 r j0) r).
+        { intros r. rewrite qr_Q_inner_spec. bdestr. }
+        rewrite (Qapp_ext m QR c _ (Hk m c QR (fun r => upd Q c c 1 r j0))) by (intros; apply HQ').
+        change (Qapp m QR c (Hk m c QR (fun r => upd Q c c 1 r j0)) i0)
+          with (Qapp m QR (S c) (fun r => upd Q c c 1 r j0) i0).
+        destruct (Nat.eq_dec j0 c) as [->|Hne].
+        * assert (He : forall r, upd Q c c 1 r c = if Nat.eqb r c then 1 else 0).
+          { intros r. rewrite upd_eq. bdestr. apply H1. lia. }
+          rewrite (Qapp_ext m QR (S c) _ (fun r => if Nat.eqb r c then 1 else 0)) by (intros; apply He).
+          replace n with (S c + (n - S c))%nat at 1 by lia.
+          symmetry. apply Qapp_zero_tail. intros r Hr. bdestr.
+        * rewrite <- H2 by lia. apply Qapp_ext; intros; apply upd_other; lia. }
+  destruct HP as [_ HP]. specialize (HP i j ltac:(lia)). cbn [Qapp] in HP. exact HP.
+Qed.
+
+Lemma Qapp_linear m V cnt a b : forall x y i,
+  Qapp m V cnt (fun i => a * x i + b * y i) i = a * Qapp m V cnt x i + b * Qapp m V cnt y i.
+Proof.
+  induction cnt as [|c IH]; intros x y i; [reflexivity|].
+  cbn [Qapp]. rewrite <- IH. apply Qapp_ext; intros; apply Hk_linear.
+Qed.
+Lemma Qapp_zero m V cnt i : Qapp m V cnt (fun _ => 0) i = 0.
+Proof.
+  rewrite (Qapp_ext m V cnt _ (fun i => 0 * 0 + 0 * 0)) by (intros; ring).
+  rewrite (Qapp_linear m V cnt 0 0 (fun _ => 0) (fun _ => 0)). ring.
+Qed.
+Lemma Qapp_lin_sum m V cnt N (c : nat -> R) (x : nat -> nat -> R) i :
+  Qapp m V cnt (fun r => rsum N (fun t => c t * x t r)) i = rsum N (fun t => c t * Qapp m V cnt (x t) i).
+Proof.
+  induction N as [|N IH].
+  - rewrite rsum_0. apply Qapp_zero.
+  - rewrite rsum_S, <- IH.
+    rewrite (Qapp_ext m V cnt _ (fun r => 1 * rsum N (fun t => c t * x t r) + c N * x N r))
+      by (intros; rewrite rsum_S; ring).
+    rewrite Qapp_linear. ring.
+Qed.
+
+Lemma qr_QR_product m n (A : @Mx R) : (n <= m)%nat ->
+  let '(QR, tau) := qr_mut ROps m n A in
+  forall i j, (i < m)%nat -> (j < n)%nat -> mmul n (qr_Q ROps m n QR) (qr_R ROps QR tau) i j = A i j.
+Proof.
+  intros Hnm. pose proof (qr_reconstruct m n A Hnm) as Hrec.
+  destruct (qr_mut ROps m n A) as [QR tau]. intros i j Hi Hj.
+  rewrite <- Hrec by assumption. unfold mmul.
+  rewrite (rsum_ext n _ (fun t => qr_R ROps QR tau t j *
+                                   Qapp m QR n (fun r => if Nat.eqb r t then 1 else 0) i)).
+  2:{ intros t Ht. rewrite qr_Q_spec by assumption. ring. }
+  rewrite <- (Qapp_lin_sum m QR n n (fun t => qr_R ROps QR tau t j)
+                (fun t r => if Nat.eqb r t then 1 else 0) i).
+  assert (He : forall r, rsum n (fun t => qr_R ROps QR tau t j * (if Nat.eqb r t then 1 else 0)) =
+                         if (r <=? j)%nat then qr_R ROps QR tau r j else 0).
+  { intros r. destruct (le_lt_dec n r) as [Hr|Hr].
+    - rewrite rsum_zero by (intros t Ht; bdestr; ring). bdestr.
+    - rewrite (rsum_single n r) by (try assumption; intros t Ht Hne; bdestr; ring).
+      rewrite Nat.eqb_refl. bdestr; try ring. rewrite qr_R_upper by lia. ring. }
+  apply Qapp_ext; intros; apply He.
+Qed.
+
+(* ---------- (7) Q has orthonormal columns ---------- *)
+Lemma Qapp_dot m V cnt : (forall k, (k < cnt)%nat -> refl_ok m k V) ->
+  forall x y, dot m (Qapp m V cnt x) (Qapp m V cnt y) = dot m x y.
+Proof.
+  induction cnt as [|c IH]; intros Hok x y; [reflexivity|].
+  cbn [Qapp]. rewrite IH by (intros; apply Hok; lia). apply Hk_dot. apply Hok. lia.
+Qed.
+Lemma Qtapp_dot m V cnt : (forall k, (k < cnt)%nat -> refl_ok m k V) ->
+  forall x y, dot m (Qtapp m V cnt x) (Qtapp m V cnt y) = dot m x y.
+Proof.
+  induction cnt as [|c IH]; intros Hok x y; [reflexivity|].
+  cbn [Qtapp]. rewrite Hk_dot by (apply Hok; lia). apply IH. intros; apply Hok; lia.
+Qed.
+
+Lemma qr_Q_orthonormal m n (A : @Mx R) : (n <= m)%nat ->
+  let '(QR, tau) := qr_mut ROps m n A in
+  forall a b, (a < n)%nat -> (b < n)%nat ->
+    rsum m (fun i => qr_Q ROps m n QR i a * qr_Q ROps m n QR i b) = (if Nat.eqb a b then 1 else 0).
+Proof.
+  intros Hnm. pose proof (qr_refl_ok m n A Hnm) as F.
+  destruct (qr_mut ROps m n A) as [QR tau]. cbn [fst] in F. intros a b Ha Hb.
+  rewrite (rsum_ext m _ (fun i => Qapp m QR n (fun r => if Nat.eqb r a then 1 else 0) i *
+                                  Qapp m QR n (fun r => if Nat.eqb r b then 1 else 0) i))
+    by (intros i Hi; rewrite !qr_Q_spec by assumption; reflexivity).
+  change (dot m (Qapp m QR n (fun r => if Nat.eqb r a then 1 else 0))
+                (Qapp m QR n (fun r => if Nat.eqb r b then 1 else 0)) = if Nat.eqb a b then 1 else 0).
+  rewrite Qapp_dot by exact F. unfold dot.
+  destruct (Nat.eqb_spec a b) as [->|Hne].
+  - rewrite (rsum_single m b) by (try lia; intros i Hi Hib; bdestr; ring).
+    rewrite Nat.eqb_refl. ring.
+  - apply rsum_zero. intros i Hi. bdestr; ring.
 Qed.
